@@ -1,5 +1,6 @@
 SPECIFICATION Spec
 CONSTANT Grid <- GridThorough
+CONSTANT ShuffleAll = TRUE
 INVARIANT TypeOK
 INVARIANT BurnExact
 INVARIANT SumPostIsOne
